@@ -284,6 +284,17 @@ func buildSCloud(exports []types.ExportSegment) ([]types.OpaqueHash, error) {
 	fullSegments = append(fullSegments, exports...)
 	fullSegments = append(fullSegments, pagedProof...)
 
+	if len(fullSegments) == 0 {
+		// No exported segments: every shard index commits to the empty sequence (M_B([]) = H^0),
+		// so the result still has one entry per shard for mergeBCloudSCloud.
+		empty := merkle_tree.Mb(nil, hash.Blake2bHash)
+		merkleResult := make([]types.OpaqueHash, types.TotalShards)
+		for i := range merkleResult {
+			merkleResult[i] = empty
+		}
+		return merkleResult, nil
+	}
+
 	groupShards := make([][][]byte, len(fullSegments))
 	for i := range fullSegments {
 		shards, err := erasurecoding.EncodeDataShards(fullSegments[i][:], types.DataShards, types.TotalShards-types.DataShards)
